@@ -358,6 +358,7 @@ class Ctx:
         self.eps_name = eps_name
         self.funcs = set()        # qualified names of functions executed from source
         self.assumptions = []     # stated bounds every query must assume (e.g. range(n): n <= limit)
+        self.global_overrides = {}  # harness stubs for module globals (each is part of the claim)
         self.max_forks = 4000
 
     def err(self, cond, kind):
@@ -1098,6 +1099,8 @@ class Frame:
             return env[name]
         if name in self.closure:
             return self.closure[name]
+        if name in CTX.global_overrides:
+            return CTX.global_overrides[name]
         if name in self.glob:
             return self.glob[name]
         if hasattr(builtins, name):
